@@ -138,14 +138,70 @@ def r5_chunk_independent_control(ck, cx, kind, cls, f, fps):
     return n
 
 
+def header_is_cached(cx, cls):
+    """does isFrameReady() parse the header only when the cached one is empty (`if not self._header: populateHeader()`)?"""
+    fn = cx.idx.find_method(cls, 'isFrameReady')
+    if fn is None:
+        return False
+    for n in ast.walk(fn.node):
+        if isinstance(n, ast.If):
+            t = n.test
+            neg = isinstance(t, ast.UnaryOp) and isinstance(t.op, ast.Not)
+            if U(t.operand if neg else t) == 'self._header' and any(isinstance(c, ast.Call) and callee_name(c) == 'populateHeader' for c in ast.walk(n)):
+                return True
+    return False
+
+
+def r6_header_cache_coherence(ck, cx, kind, cls, f, fps, rule='R6'):
+    """When readiness is judged from a cached header, dropping bytes from the front of the buffer must invalidate the cache
+    on the same path: otherwise the length of the frame that was dropped decides when the NEXT frame counts as complete"""
+    if not header_is_cached(cx, cls):
+        return 0
+    n = 0
+    for fp in fps:
+        if not fp.shrinks or (fp.exit and fp.exit[0] == 'exc'):
+            continue
+        n += 1
+        last = fp.shrinks[-1][0]
+        resets = [i for i, ev in enumerate(fp.path.ev) if ev.kind == 'assign' and U(ev.a) == 'self._header' and i > last - 1]
+        ck.ob(rule, f.qn, 'after bytes are dropped from the front of the buffer the cached header is reset', bool(resets),
+              detail='stale-header-after-drop', loc=cx.floc(f, fp.path.ev[last].node),
+              message='%s framer drops bytes from the front of its buffer (%s) but keeps the cached header: isFrameReady() then judges the next '
+                      'frame by the length of the one that was dropped' % (kind, U(fp.path.ev[last].node)[:60]))
+    return n
+
+
+def r7_add_appends(ck, cx, kind, cls, rule='R7'):
+    """addToFrame(chunk): buffer' = buffer + chunk on every path -- bytes leave the buffer only through the frame logic"""
+    from ..common import annotate
+    fn = cx.method(cls, 'addToFrame')
+    ck.saw('functions', fn.qn)
+    msg = fn.params[1]
+    n = 0
+    for p in cx.enum(fn, cls, max_depth=1):
+        if p.exit and p.exit[0] == 'exc':
+            continue
+        st = annotate(p, heap=True)
+        v = st.heap.get('self._buffer')
+        n += 1
+        txt = U(v).replace(' ', '') if v is not None else None
+        ck.ob(rule, fn.qn, 'addToFrame leaves buffer + chunk in the buffer', txt in ('self._buffer+%s' % msg, 'self._buffer+bytes(%s)' % msg),
+              detail='add-not-append %s' % (txt or 'unchanged')[:60], loc=cx.floc(fn),
+              message='%s framer: addToFrame can leave `%s` in the buffer instead of buffer + chunk: bytes are dropped or reordered outside the frame logic'
+                      % (kind, U(v) if v is not None else 'the old buffer'))
+    return n
+
+
 def run(ck, tier):
     cx = Ctx()
+    ck.rule('R7', 'addToFrame appends the chunk to the buffer and does nothing else to it')
+    ck.rule('R6', 'a framer that caches the parsed header resets it whenever it drops bytes from the front of the buffer')
     ck.rule('R1', 'every delivery site lies inside a loop of processIncomingPacket that continues after a delivery')
     ck.rule('R2', 'on every path that takes a data-absence outcome (length too small / delimiter not found) nothing is discarded, raised or delivered afterwards')
     ck.rule('R3', 'header truthiness after __init__ equals that after resetFrame/advanceFrame when code branches on it')
     ck.rule('R4', 'IndexError/KeyError/struct.error from sizing a partial frame cannot escape processIncomingPacket')
     ck.rule('R5', 'after the chunk is appended to the buffer no branch condition of the receive path mentions the chunk: decisions depend on the accumulated bytes only')
-    npaths = nabs = 0
+    npaths = nabs = ncache = 0
     for kind in KINDS:
         cls, f, fps = framer_paths(cx, kind)
         ck.saw('functions', f.qn)
@@ -156,10 +212,13 @@ def run(ck, tier):
         ck.guard(r3_header, ck, cx, kind, cls)
         ck.guard(r4_escape, ck, cx, kind, cls, f, fps)
         ck.guard(r5_chunk_independent_control, ck, cx, kind, cls, f, fps)
+        ncache += ck.guard(r6_header_cache_coherence, ck, cx, kind, cls, f, fps) or 0
+        ck.guard(r7_add_appends, ck, cx, kind, cls)
         ck.sample({'framer': kind, 'paths': len(fps), 'absence-paths': sum(1 for fp in fps if fp.absences),
                    'delivery-paths': sum(1 for fp in fps if fp.deliveries)})
     ck.floor('R2', nabs, 8, 'data-absence paths over four framers')
     ck.floor('R1', npaths, 100, 'processIncomingPacket paths')
+    ck.floor('R6', ncache, 3, 'buffer-dropping paths of framers with a cached header')
     ck.assume('only explicit tests (len(buffer) comparisons, find() == -1) count as data-absence; short reads that are caught and turned into False are unclassified')
     ck.assume('equality of delivered message sequences over all chunkings is not decided; these are necessary structural conditions')
     return cx.idx
